@@ -1,6 +1,7 @@
 package obl
 
 import (
+	"os"
 	"fmt"
 	"go/token"
 	"go/types"
@@ -161,6 +162,9 @@ func (an *Analyzer) stepBuiltin(s *State, f *Frame, call *ssa.Call, b *ssa.Built
 			}
 			if s.lo(Lin{lt, 0}) > 0 {
 				s.nn[t] = true
+			}
+			if trace {
+				fmt.Fprintf(os.Stderr, "   append in %s: a0=%s len0=%v(%v) l1=%v -> %v\n", f.fn.Name(), a0, l0, s.getIv(an.lenTerm(a0)), l1, s.getIv(lt))
 			}
 		}
 		// append may write into the backing array of its first argument
